@@ -3,6 +3,7 @@ package main
 
 import (
 	"go/ast"
+	"go/token"
 	"strings"
 
 	"verifextract/lib"
@@ -247,6 +248,40 @@ func main() {
 				})
 				e.Strs("paginateBody", st, "conditions and assignments of paginateIDs, source order")
 			}
+		}
+		// ---- retention: OldestCT is taken from the REMAINING fractions (the local slice advances with every eviction)
+		if f, err := r.Load("fracmanager/fracmanager.go"); err != nil {
+			e.Missing("fracmanager.go", err)
+		} else if fd := f.Func("FracManager", "shrinkSizes"); fd == nil {
+			e.Missing("shrinkSizesFacts", "shrinkSizes not found")
+		} else {
+			var facts []string
+			ast.Inspect(fd.Body, func(n ast.Node) bool {
+				switch x := n.(type) {
+				case *ast.ForStmt:
+					if x.Cond != nil {
+						facts = append(facts, "for "+f.Render(x.Cond))
+						for _, st := range x.Body.List {
+							if as, ok := st.(*ast.AssignStmt); ok && f.Render(as.Lhs[0]) == "fracs" {
+								facts = append(facts, "  "+f.Render(as))
+							}
+							if as, ok := st.(*ast.AssignStmt); ok && f.Render(as.Lhs[0]) == "outsider" {
+								facts = append(facts, "  "+f.Render(as))
+							}
+						}
+					}
+				case *ast.IfStmt:
+					if x.Init != nil && strings.Contains(f.Render(x.Init), "GetOldestFrac") {
+						facts = append(facts, "if "+f.Render(x.Init)+"; "+f.Render(x.Cond))
+					}
+				case *ast.AssignStmt:
+					if len(x.Lhs) == 1 && (f.Render(x.Lhs[0]) == "newOldestCT" || (f.Render(x.Lhs[0]) == "fracs" && x.Tok == token.DEFINE)) {
+						facts = append(facts, f.Render(x))
+					}
+				}
+				return true
+			})
+			e.Strs("shrinkSizesFacts", facts, "shrinkSizes: the eviction loop advances the local fraction list; OldestCT comes from that list")
 		}
 		// ---- the token text of an aggregation source: the cache of ValueBySource must be an identity
 		if f, err := r.Load("frac/processor/aggregator.go"); err != nil {
